@@ -118,6 +118,11 @@ func (d *dfs) claim(f *frame) bool {
 	for len(f.alts) > 0 {
 		a := f.alts[0]
 		f.alts = f.alts[1:]
+		if a.budget < 0 {
+			// unclaimed default-path step of parallel S2
+			f.chosen = a.idx
+			return true
+		}
 		_, _, _, fresh, prune := d.table.Claim(a.key, a.budget, 1)
 		if prune {
 			continue
@@ -190,6 +195,17 @@ func (d *dfs) Pick(s *vs.Sched, en []vs.Trans) int {
 				budget--
 			}
 			if budget < 0 {
+				continue
+			}
+		}
+		if s2 && d.opt.NShards > 1 && devs == 0 && d.cut == 0 {
+			// parallel S2: every worker walks the pure default path itself (never claimed); the first
+			// deviation at step i belongs to worker i mod N; below that everything is shared through the table
+			if k == def {
+				f.alts = append(f.alts, alt{k, vs.H{}, -1})
+				continue
+			}
+			if i%d.opt.NShards != d.opt.Shard {
 				continue
 			}
 		}
@@ -394,8 +410,11 @@ func Explore(sc Scenario, opt Options) *Stats {
 	}
 	d := &dfs{sc: sc, opt: opt, st: st, table: table}
 	complete := true
-	if opt.NShards <= 1 {
+	if opt.NShards <= 1 || opt.Mode == "S2" {
 		complete = d.exploreFrom(0)
+		if opt.Mode == "S2" && opt.NShards > 1 && opt.Shard > 0 && st.Executions > 0 {
+			st.Executions-- // the pure default execution is run by every worker; shard 0 accounts for it
+		}
 	} else {
 		items, shallow := enumerate(sc, opt)
 		if opt.Shard == 0 {
